@@ -5,7 +5,9 @@
    Property C28: the i-th request goes to node i mod N whatever happened before. *)
 EXTENDS Integers, Sequences, TLC
 CONSTANTS N, MaxLen
-Outcomes == {"ok", "notfound", "error", "retry_ok", "retry_error"}
+Outcomes == {"ok", "notfound", "error", "retry_ok", "retry_error",
+             "conn_error",   \* the HTTP library raises (connection refused, timeout): not an RpcError
+             "bad_body"}     \* 5xx with a JSON body that is not an error list: pytezos raises AssertionError
 VARIABLES next,   \* index of the node that receives the next request
           log     \* <<node, outcome>> per logical request
 vars == <<next, log>>
